@@ -77,6 +77,11 @@ def gen_call(family, rng, tier):
         c["path"] = "chain"
         if c["placer"] == "sa-py":
             c["placer"] = "hilbert"
+        if family == "chain" and rng.random() < .3:
+            # the deprecated all-in-one wrapper with its two switches, with
+            # and without a constraint list of the caller's own
+            return ("wrapper", c, rng.random() < .5, rng.random() < .5,
+                    rng.random() < .6)
         return (family, c)
     if family == "minimise":
         t = c04.gen_table(rng, rng.choice(["orth", "ordered", "tiny"]),
@@ -305,6 +310,49 @@ def execute(desc, ctx=None, mutate=False, seed=0):
         if mutate:
             pl.clear()
         return out
+    if kind == "wrapper":
+        import warnings
+        _, case, reserve_monitor, align_sdram, give = desc
+        wr = imp("rig.place_and_route.wrapper")
+        m = case["machine"]
+        machine = par.build_machine(m)
+        vr = par.build_vertices(case["vertices"])
+        nets = par.build_nets(case["nets"])
+        cons = par.build_constraints(list(case["constraints"]))
+        net_keys = {n: (0x1000 + 16 * i, 0xfffffff0)
+                    for i, n in enumerate(nets)}
+        apps = {v: "app" for v in vr}
+        args = [vr, apps, nets, net_keys, machine]
+        if give:
+            args.append(cons)
+        try:
+            w = Watch(ctx, "wrapper", vr=vr, apps=apps, nets=nets,
+                      net_keys=net_keys, machine=machine, cons=cons)
+            with warnings.catch_warnings():
+                warnings.simplefilter("ignore")
+                pl, al, amap, tables = wr.wrapper(
+                    *args, reserve_monitor=reserve_monitor,
+                    align_sdram=align_sdram,
+                    place=imp("rig.place_and_route.place.hilbert").place,
+                    route_kwargs=dict(radius=case["radius"]))
+            w.verify()
+        except Violation:
+            raise
+        except Exception as e:
+            w.verify()
+            return ["exception", type(e).__name__]
+        out = dict(
+            placements=sorted((repr(v), list(xy)) for v, xy in pl.items()),
+            allocations=sorted(
+                (repr(v), sorted((repr(r), s_.start, s_.stop)
+                                 for r, s_ in a.items()))
+                for v, a in al.items()),
+            tables=res_tables(tables))
+        if mutate:
+            pl.clear()
+            for tb in tables.values():
+                del tb[:]
+        return json.loads(json.dumps(out))
     if kind in ("chain", "route"):
         case = desc[1]
         rp = imp("rig.place_and_route")
